@@ -1,9 +1,9 @@
 CONSTANTS
-  NP = 1
+  NP = 2
   NLines = 2
-  Dev = {}
-  Lvls = {TRUE, FALSE}
-  TwoPhase = FALSE
+  Dev = {"exit_on_failed_pop_when_stopping"}
+  Lvls = {TRUE}
+  TwoPhase = TRUE
   Grain = "stmt"
 SPECIFICATION Spec
 INVARIANT InvExactlyOnce
@@ -12,5 +12,4 @@ INVARIANT InvProducerOrder
 INVARIANT InvSeqConsecutive
 INVARIANT InvRetIffAccepted
 INVARIANT InvStopComplete
-PROPERTY StopReturns
 CHECK_DEADLOCK FALSE
